@@ -59,6 +59,8 @@ class C01Box(Monitor):
         self.checked_to = max(self.checked_to, end)
         if deme._sprout_seed is not None and not self.ctx.in_box(deme._sprout_seed.genome):
             self.v("sprout seed outside the box", deme=deme.id, x=hexf(deme._sprout_seed.genome))
+        if deme._sprout_seed is not None and self.ctx.desc.get("box", {}).get("cls") == "needle" and type(deme).__name__ in ("EADeme", "DEDeme", "SHADEDeme"):
+            self.cov("individuals_sampled_around_a_seed_with_a_width_500_times_a_side_of_the_box", max(0, end - start - 1))
         if deme._sprout_seed is not None and type(deme).__name__ == "LocalDeme":
             f_ = deme._sprout_seed.fitness
             if f_ is not None and f_ == f_ and abs(f_) == float("inf"):
